@@ -13,10 +13,18 @@ use chain_gang::script::Script;
 use chain_gang::util::{sha256d, Hash256, Serializable};
 use std::collections::HashSet;
 use std::io::Cursor;
+use std::io::Write as _;
 
 type H = [u8; 32];
 
-pub fn tables(_w: &mut dyn std::io::Write) {}
+pub fn tables(w: &mut dyn std::io::Write) {
+    // constants the block model depends on, as the current tree compiles them
+    writeln!(w, "C14_BCH_FORK_HEIGHT_MAINNET {}", chain_gang::util::BITCOIN_CASH_FORK_HEIGHT_MAINNET).unwrap();
+    writeln!(w, "C14_BCH_FORK_HEIGHT_TESTNET {}", chain_gang::util::BITCOIN_CASH_FORK_HEIGHT_TESTNET).unwrap();
+    writeln!(w, "C14_GENESIS_HEIGHT_MAINNET {}", chain_gang::util::GENESIS_UPGRADE_HEIGHT_MAINNET).unwrap();
+    writeln!(w, "C14_GENESIS_HEIGHT_TESTNET {}", chain_gang::util::GENESIS_UPGRADE_HEIGHT_TESTNET).unwrap();
+    writeln!(w, "C14_COINBASE_INDEX {}", COINBASE_OUTPOINT_INDEX).unwrap();
+}
 
 fn h256(b: &[u8]) -> Hash256 { let mut a = [0u8; 32]; a.copy_from_slice(b); Hash256(a) }
 fn hex_list(v: &[H]) -> String { if v.is_empty() { "-".into() } else { v.iter().map(|h| hex::encode(h)).collect::<Vec<_>>().join(",") } }
@@ -130,6 +138,58 @@ fn gen_block_txs(n: usize, rng: &mut Rng, fund: &Hash256) -> Vec<Tx> {
         }
     }).collect()
 }
+// ------------------------------------------------------------------ whole-block fixtures (c14.blockv / c14.binputs)
+
+const NETS: [Network; 7] = [Network::BSV_Mainnet, Network::BSV_Testnet, Network::BSV_STN, Network::BTC_Mainnet, Network::BTC_Testnet, Network::BCH_Mainnet, Network::BCH_Testnet];
+const BKEY: [u8; 32] = [0x11; 32];
+
+fn bkey_pub() -> Vec<u8> {
+    k256::ecdsa::SigningKey::from_slice(&BKEY).unwrap().verifying_key().to_encoded_point(true).as_bytes().to_vec()
+}
+/// second funding transaction: even outputs are `OP_1 OP_RETURN` (spendable under the Genesis rules only), odd outputs pay to
+/// the fixed public key (`<pk> OP_CHECKSIG`)
+fn funding_tx2() -> Tx {
+    let pk = bkey_pub();
+    let mut p2pk = vec![pk.len() as u8]; p2pk.extend_from_slice(&pk); p2pk.push(0xac);
+    Tx { version: 1,
+         inputs: vec![TxIn { prev_output: OutPoint { hash: Hash256([8; 32]), index: 0 }, unlock_script: Script(vec![]), sequence: 0 }],
+         outputs: (0..64).map(|i| TxOut { satoshis: 1000, lock_script: Script(if i % 2 == 0 { vec![0x51, 0x6a] } else { p2pk.clone() }) }).collect(),
+         lock_time: 0 }
+}
+/// one transaction per kind letter: c coinbase, v anyone-can-spend, x missing utxo, g Genesis-only, l legacy-signed (valid only
+/// where FORKID is not required), f FORKID-signed, d spends the same outpoint as the previous non-coinbase transaction
+fn kind_txs(kinds: &str, f1: &Hash256, f2: &Tx) -> Option<Vec<Tx>> {
+    let f2h = f2.hash();
+    let mut txs: Vec<Tx> = Vec::new();
+    let mut last: Option<OutPoint> = None;
+    for (i, k) in kinds.chars().enumerate() {
+        let plain = |op: OutPoint, us: Vec<u8>| Tx { version: 2, inputs: vec![TxIn { prev_output: op, unlock_script: Script(us), sequence: 0xffff_fffe }],
+                                                     outputs: vec![TxOut { satoshis: 1 + i as i64, lock_script: Script(vec![0x51]) }], lock_time: 0 };
+        let t = match k {
+            'c' => plain(OutPoint { hash: COINBASE_OUTPOINT_HASH, index: COINBASE_OUTPOINT_INDEX }, vec![2, i as u8, 7]),
+            'v' => plain(OutPoint { hash: *f1, index: (i % FUND_OUTPUTS) as u32 }, vec![]),
+            'x' => plain(OutPoint { hash: Hash256([0xee; 32]), index: i as u32 }, vec![]),
+            'g' => plain(OutPoint { hash: f2h, index: (2 * (i % 32)) as u32 }, vec![]),
+            'd' => plain(last.clone()?, vec![]),
+            'l' | 'f' => {
+                let idx = 2 * (i % 32) + 1;
+                let mut t = plain(OutPoint { hash: f2h, index: idx as u32 }, vec![]);
+                let ty: u8 = if k == 'l' { 0x01 } else { 0x41 };
+                let mut cache = chain_gang::transaction::sighash::SigHashCache::new();
+                let h = chain_gang::transaction::sighash::sighash(&t, 0, &f2.outputs[idx].lock_script.0, 1000, ty, &mut cache).ok()?;
+                let sig = chain_gang::transaction::generate_signature(&BKEY, &h, ty).ok()?;
+                let mut us = vec![sig.len() as u8]; us.extend_from_slice(&sig);
+                t.inputs[0].unlock_script = Script(us);
+                t
+            }
+            _ => return None,
+        };
+        if k != 'c' { last = Some(t.inputs[0].prev_output.clone()); }
+        txs.push(t);
+    }
+    Some(txs)
+}
+
 fn ser_tx(t: &Tx) -> Vec<u8> { let mut v = Vec::new(); t.write(&mut v).unwrap(); v }
 
 // ------------------------------------------------------------------ exec
@@ -156,6 +216,26 @@ pub fn exec(op: &str, a: &[&str]) -> Option<String> {
             let ids = seeded_ids(seed, n);
             let b = build_full(&ids, &mask);
             Some(mb_outcome(n as u32, &b.root, pack(&b.bits), b.hashes.iter().map(|h| Hash256(*h)).collect()))
+        }
+        // c14.blockv <network 0..6> <height> <root ok 0|1> <kinds>: Block::validate on a block assembled from kind letters
+        "c14.blockv" => {
+            let (Ok(ni), Ok(height)) = (a[0].parse::<usize>(), a[1].parse::<i32>()) else { return Some("bad-request".into()) };
+            if ni >= NETS.len() { return Some("bad-request".into()); }
+            let f1 = funding_tx(); let f2 = funding_tx2();
+            let Some(txns) = kind_txs(if a[3] == "-" { "" } else { a[3] }, &f1.hash(), &f2) else { return Some("bad-request".into()) };
+            let ids: Vec<H> = txns.iter().map(|t| t.hash().0).collect();
+            let mut root = if ids.is_empty() { [0u8; 32] } else { *levels(&ids).last().unwrap().last().unwrap() };
+            if a[2] != "1" { root[5] ^= 0x10; }
+            let block = Block { header: BlockHeader { merkle_root: Hash256(root), ..Default::default() }, txns };
+            let utxos = Block { header: Default::default(), txns: vec![f1, f2] }.outputs().unwrap();
+            Some(match block.validate(height, NETS[ni], &utxos, &HashSet::new()) { Ok(()) => "ok".into(), Err(e) => err_class(&e) })
+        }
+        // c14.binputs <kinds>: Block::inputs -> ok:<number of outpoints> | err:<Variant>
+        "c14.binputs" => {
+            let f1 = funding_tx(); let f2 = funding_tx2();
+            let Some(txns) = kind_txs(if a[0] == "-" { "" } else { a[0] }, &f1.hash(), &f2) else { return Some("bad-request".into()) };
+            let block = Block { header: Default::default(), txns };
+            Some(match block.inputs() { Ok(s) => format!("ok:{}", s.len()), Err(e) => err_class(&e) })
         }
         "c14.block" => {
             let txns: Vec<Tx> = parse_hex_list(a[1]).iter().map(|b| Tx::read(&mut Cursor::new(b)).expect("tx")).collect();
@@ -218,7 +298,39 @@ fn random_mask(n: usize, rng: &mut Rng, style: u64) -> Vec<bool> {
 }
 fn mask_str(m: &[bool]) -> String { if m.is_empty() { "-".into() } else { m.iter().map(|b| if *b { '1' } else { '0' }).collect() } }
 
+/// whole blocks: every network x heights around the four activation heights x kind strings
+fn gen_blocks(thorough: bool, rng: &mut Rng, out: &mut Vec<String>) {
+    let hs: Vec<i64> = {
+        let c = [chain_gang::util::BITCOIN_CASH_FORK_HEIGHT_MAINNET as i64, chain_gang::util::BITCOIN_CASH_FORK_HEIGHT_TESTNET as i64,
+                 chain_gang::util::GENESIS_UPGRADE_HEIGHT_MAINNET as i64, chain_gang::util::GENESIS_UPGRADE_HEIGHT_TESTNET as i64];
+        let mut v = vec![-1i64, 0, 1, i32::MAX as i64, i32::MIN as i64];
+        for x in c { v.extend([x - 1, x, x + 1]); }
+        v
+    };
+    let fixed = ["c", "cv", "vc", "cg", "cl", "cf", "cgl", "clg", "cvf", "cc", "ccv", "vcc", "v", "-", "cx", "cxg", "cgx", "clx", "cvvvvc", "gcl", "cfl"];
+    for ni in 0..7 {
+        for h in &hs {
+            for k in fixed.iter() { out.push(format!("c14.blockv {} {} 1 {}", ni, h, k)); }
+            out.push(format!("c14.blockv {} {} 0 cv", ni, h));
+        }
+    }
+    let n = if thorough { 6000 } else { 600 };
+    for _ in 0..n {
+        let len = rng.range(0, 7) as usize;
+        let k: String = (0..len).map(|_| *rng.pick(&['c', 'v', 'v', 'g', 'l', 'f', 'x'])).collect();
+        let k = if rng.chance(2, 3) && !k.contains('c') { format!("c{}", k) } else { k };
+        out.push(format!("c14.blockv {} {} {} {}", rng.below(7), rng.pick(&hs), if rng.chance(9, 10) { 1 } else { 0 }, if k.is_empty() { "-".to_string() } else { k }));
+    }
+    for k in ["-", "c", "cv", "cvv", "cvd", "vd", "cvgd", "vcd", "cvvgl", "cdv", "vvdv", "cvcv"] { out.push(format!("c14.binputs {}", k)); }
+    for _ in 0..(if thorough { 2000 } else { 200 }) {
+        let len = rng.range(1, 8) as usize;
+        let k: String = (0..len).map(|_| *rng.pick(&['c', 'v', 'v', 'g', 'd', 'd', 'x'])).collect();
+        out.push(format!("c14.binputs {}", k));
+    }
+}
+
 pub fn gen(tier: &str, rng: &mut Rng, out: &mut Vec<String>) {
+    gen_blocks(tier == "thorough", &mut rng.fork(), out);
     let thorough = tier == "thorough";
     let seed = rng.next() & 0xffff_ffff;
 
